@@ -222,6 +222,18 @@ def oracle_string(case) -> list:
         out.append(D("C01:string:mutated", "DotBracket changed its own text"))
     out += check_notation("dot_bracket", b.dot_bracket, seq, pairs)
     out += check_notation("fcfs", b.fcfs, seq, pairs)
+    # notations DERIVED from this one are dot-brackets too: the pseudoknot-free one (taken from the object after its
+    # pairs were read and converted above, and from a fresh object) must convert to exactly the round-bracket pairs
+    round_pairs = sorted((i, j) for i, j, lev in ref if lev == 0)
+    for tag, src in (("used-object", db), ("fresh-object", DotBracket.from_string(seq, structure))):
+        d2 = src.without_pseudoknots()
+        if d2.sequence != seq or len(d2.structure) != len(structure):
+            out.append(D(f"C01:string:without-pseudoknots:{tag}:text", f"{d2.structure!r} for {structure!r}"))
+            continue
+        got2 = sorted((a + 1, c + 1) for a, c in d2.pairs)
+        conv = BpSeq.from_dotbracket(d2)
+        if got2 != round_pairs or str(conv) != ssref.bpseq_text(seq, round_pairs):
+            out.append(D(f"C01:string:without-pseudoknots:{tag}:pairs", f"{structure!r} -> {d2.structure!r} carries pairs {got2[:6]}, BPSEQ pairs differ from the round-bracket pairs {round_pairs[:6]}"))
     return out
 
 
